@@ -1203,6 +1203,8 @@ func (c *c15) solverModel() {
 	}
 	// element-wise holders: ActivationFunctions[i] = NodeActivator{v}, Modules = append(...)
 	mtm := NewTermer(mk)
+	listStores := map[*ssa.Store]string{} // element stores into a list of the holder -> holder field
+	aligned := map[*ssa.Store]bool{}      // .. those that put the element built from n.<f>[i] at index i
 	Instrs(mk, func(_ *ssa.BasicBlock, _ int, in ssa.Instruction) {
 		st, ok := in.(*ssa.Store)
 		if !ok {
@@ -1210,9 +1212,23 @@ func (c *c15) solverModel() {
 		}
 		at := mtm.Of(st.Addr)
 		vt := mtm.Of(st.Val)
+		// el is an element of a list of the holder being built (its field, or a local list that becomes its field)
+		ofHolder := func(el *Term) string {
+			hf := c15HolderListField(mtm, el)
+			if hf != "" && el.Args[0].Op == "field" && el.Args[0].Args[0].Op != "new" {
+				return ""
+			}
+			return hf
+		}
+		if hf := ofHolder(at); hf != "" {
+			listStores[st] = hf
+		} else if at.Op == "field" && at.Args[0].Op == "elem" {
+			if hf := ofHolder(at.Args[0]); hf != "" {
+				listStores[st] = hf
+			}
+		}
 		// data.<HF>[i] = NodeActivator{NodeActivation: n.<f>[i]} (the element is built in a temporary)
-		if at.Op == "elem" && at.Args[0].Op == "field" && len(at.Args) > 1 {
-			hf := at.Args[0].Name
+		if hf := c15HolderListField(mtm, at); hf != "" {
 			if u, ok := st.Val.(*ssa.UnOp); ok {
 				if tmp, ok := u.X.(*ssa.Alloc); ok {
 					for _, ref := range *tmp.Referrers() {
@@ -1225,6 +1241,7 @@ func (c *c15) solverModel() {
 								v2 := mtm.Of(st2.Val)
 								if v2.Op == "elem" && v2.Args[0].Op == "field" && isParamIdx(v2.Args[0].Args[0], 0) && len(v2.Args) > 1 && v2.Args[1].V == at.Args[1].V {
 									holderOf[v2.Args[0].Name] = hf + "[i]." + fieldOf(fa.X.Type(), fa.Field).Name()
+									aligned[st] = true
 								}
 							}
 						}
@@ -1233,13 +1250,31 @@ func (c *c15) solverModel() {
 			}
 		}
 		// data.<HF>[i].<G> = n.<f>[i]: the element's field is set in place (same index value on both sides)
-		if at.Op == "field" && at.Args[0].Op == "elem" && len(at.Args[0].Args) > 1 && at.Args[0].Args[0].Op == "field" {
+		if at.Op == "field" && at.Args[0].Op == "elem" && len(at.Args[0].Args) > 1 {
 			el := at.Args[0]
-			if el.Args[0].Args[0].Op == "new" && vt.Op == "elem" && vt.Args[0].Op == "field" && isParamIdx(vt.Args[0].Args[0], 0) && len(vt.Args) > 1 && vt.Args[1].V == el.Args[1].V {
-				holderOf[vt.Args[0].Name] = el.Args[0].Name + "[i]." + at.Name
+			inHolder := el.Args[0].Op == "field" && el.Args[0].Args[0].Op == "new"
+			hf := ""
+			if inHolder {
+				hf = el.Args[0].Name
+			} else if el.Args[0].Op != "field" {
+				hf = c15HolderListField(mtm, el) // a local list that becomes the holder field as a whole
+			}
+			if hf != "" && vt.Op == "elem" && vt.Args[0].Op == "field" && isParamIdx(vt.Args[0].Args[0], 0) && len(vt.Args) > 1 && vt.Args[1].V == el.Args[1].V {
+				holderOf[vt.Args[0].Name] = hf + "[i]." + at.Name
+				aligned[st] = true
 			}
 		}
 	})
+	// nothing else writes into the list that carries the activation types: an element written a second time (or at
+	// another index) would replace what the aligned store saved
+	if h := holderOf["activationFunctions"]; strings.Contains(h, "[i].") {
+		hf := h[:strings.Index(h, "[i].")]
+		for st, f := range listStores {
+			if f == hf && !aligned[st] {
+				r.Undecided(label+".activationFunctions.stores", p.Pos(st.Pos()), "an element of holder."+hf+" is also written by a store that is not `holder."+hf+"[i] <- activationFunctions[i]`")
+			}
+		}
+	}
 	// reader: constructor arguments and later stores, as holder fields
 	rtm := NewTermer(rd)
 	calls := CallsTo(rd, ctor)
@@ -1483,7 +1518,8 @@ func (c *c15) solverModules(mk, rd *ssa.Function, restoredFrom string) {
 		if !ok {
 			return
 		}
-		if t := mtm.Of(ia.X); !(t.Op == "field" && t.Name == "Modules" && t.Args[0].Op == "new") {
+		// the list is the holder's field, or a local list that is installed as that field as a whole
+		if t := mtm.Of(ia.X); !(t.Op == "field" && t.Name == "Modules" && t.Args[0].Op == "new") && c15LocalListField(mtm, ia.X) != "Modules" {
 			return
 		}
 		l := InnermostLoop(mloops, b)
